@@ -21,6 +21,15 @@ def build_inputs(tier, rng):
     for i in range(3):
         prog = semgen.batch_program(rng.sample(cs, 6), "gen%d" % i, funcs=semgen.FUNCS, nearly_stmts=semgen.GLOBALS)
         seeds.append(("generated/%d" % i, {"main.ddp": ddp.render(prog).encode()}, "main.ddp"))
+    # generic functions: declared in the main and in an imported module, generics calling (recursive) generics
+    import gengen
+    gc = gengen.cases("quick", rng)
+    for i in range(0, len(gc), 20):
+        P = semgen.batch_program(gc[i:i + 20], "gen-generic%d" % i, funcs=[], nearly_stmts=[])
+        Gp = gengen.generic_program(P)
+        Gp["typedecls"], Gp["main_decoys"] = gengen.TYPEDECLS, gengen.MAIN_DECOYS
+        seeds.append(("generated/generic%d" % i, {"main.ddp": ddp.render(Gp).encode()}, "main.ddp"))
+        seeds.append(("generated/generic-lib%d" % i, {k: v.encode() for k, v in ddp.render_with_lib(Gp, {f["n"] for f in Gp["funcs"]}).items()}, "main.ddp"))
     inputs = [("seed:" + n, f, m) for n, f, m in seeds]
     mains = [f[m] for _, f, m in seeds]
     toks = feinputs.tokenize(mains)
